@@ -165,6 +165,11 @@ def make_violation(prop, scratch, v, n, harness_reports):
         write_json(path, rec)
         return "UNDECIDED-NOT-A-VIOLATION property=%s unit=%s failed functions %s: their complete Kani twins pass on the real code (replay=%s)" % (
             prop.id, vu.name, [f["function"].rsplit("::", 1)[-1] for f in v["failed"]], path)
+    if getattr(vu, "advisory", False) and not reproduced and not paired:
+        rec["downgraded"] = "advisory unit (its intermediate specification mirrors the code more closely than the property demands) and no replay scenario reproduces a violation on the real code: undecided, not a violation"
+        write_json(path, rec)
+        return "UNDECIDED-NOT-A-VIOLATION property=%s unit=%s (advisory) failed functions %s: no replay scenario reproduces a violation on the real code (replay=%s)" % (
+            prop.id, vu.name, [f["function"].rsplit("::", 1)[-1] for f in v["failed"]], path)
     if not reproduced and not paired and tests and all(t in have for t in tests):
         rec["downgraded"] = "all replay tests of the failed functions pass on the real code and no Kani harness failed: undecided, not a violation"
         write_json(path, rec)
